@@ -39,6 +39,15 @@ func vc_C06_interpolate() {
 		vfAssert(vfImplies(vfNot(snapped), vfAnd(lhs-rhs <= tol, rhs-lhs <= tol)), "mcInterpolate returns the linear zero crossing of the end values")
 	}
 	vfAssert(vfImplies(vfAnd(v1 < 1e-12, vfAnd(v1 > -1e-12, vfNot(vfAnd(v2 <= 1e-12, v2 >= -1e-12)))), vfEqV(r, p1)), "an end value strictly within 1e-12 of zero snaps the vertex to that lattice point")
+	vfAssert(vfImplies(vfAnd(v2 < 1e-12, vfAnd(v2 > -1e-12, vfNot(vfAnd(v1 <= 1e-12, v1 >= -1e-12)))), vfEqV(r, p2)), "the second end value strictly within 1e-12 of zero snaps the vertex to the second lattice point")
+	// in every case the affine field along the edge is within 1e-12 (snap) of zero at the vertex, or exactly zero:
+	// |g(r)| * |p2 - p1| small, coordinate-wise: (r - p1)(v2 - v1) + v1 (p2 - p1) = g(r) (p2 - p1)
+	for _, c := range [][3]float64{{r.X, p1.X, p2.X}, {r.Y, p1.Y, p2.Y}, {r.Z, p1.Z, p2.Z}} {
+		g := (c[0]-c[1])*(v2-v1) + v1*(c[2]-c[1])
+		span := c[2] - c[1]
+		lim := 1e-12*vfIteF(span < 0, -span, span) + tol
+		vfAssert(vfImplies(vfNot(vfAnd(vfAnd(v1 < 1e-12, v1 > -1e-12), vfAnd(v2 < 1e-12, v2 > -1e-12))), vfAnd(g <= lim, -g <= lim)), "the interpolated field value at the vertex is within the snap tolerance of zero")
+	}
 }
 
 // C06 (b) + C09 (D1-D3): corner/value pairing and batching of the uniform
